@@ -35,6 +35,7 @@ fn main() {
 			"glue" => glue::run(&mut toks),
 			"text" => misc::text(&mut toks),
 			"candle" => misc::candle(&mut toks),
+			"iresult" => misc::iresult(&mut toks),
 			"soak" => soak::run(&mut toks),
 			other => panic!("unknown suite {other}"),
 		};
